@@ -2,4 +2,5 @@ package main
 
 func init() {
 	mirror("edit.session")
+	mirror("edit.worksession")
 }
